@@ -1539,4 +1539,18 @@ theorem pollCompleted_keeps_queued {pend : Fd → Prop} {s : St W} (h : Inv pend
 
 end
 
+theorem sublist_cons_mem {α : Type} {x y : α} {rest : List α} : ∀ {l : List α},
+    (x :: rest).Sublist l → y ∈ rest → ∃ l1 l2, l = l1 ++ x :: l2 ∧ y ∈ l2 := by
+  intro l
+  induction l with
+  | nil => intro h; cases h
+  | cons a l ih =>
+    intro h hy
+    cases h with
+    | cons _ h' =>
+      obtain ⟨l1, l2, e, hm⟩ := ih h' hy
+      exact ⟨a :: l1, l2, by rw [e]; rfl, hm⟩
+    | cons_cons _ h' => exact ⟨[], l, rfl, h'.subset hy⟩
+
+
 end Compio.PollDriver
